@@ -6,6 +6,10 @@ ROOT = os.path.dirname(os.path.dirname(os.path.abspath(__file__)))
 ALL = ["C%02d" % i for i in range(1, 21)]
 
 CLAIMED = {
+ "C09": dict(
+  text="Lean 4 theorems: the remaining-length encoding is decoded exactly in <= 4 bytes for every size up to 2^28-1; every PUBLISH the client composes (all levels, retain, any accepted topic, any payload within the limit) and the four acknowledgements decode through an independently written reference decoder to exactly the requested fields; the deny decision of stringCheck/topicCheck/publish/subscribe/unsubscribe is characterised declaratively in both directions (no valid argument refused). Model tied to the source by regenerated constants and by running stringCheck, publishPacket, Config.valid and newCONNREQ of the real package against the model and decoding every emitted packet with the Lean decoder.",
+  design="6/C09", technique="Lean 4 proof (round-trip laws, decision logic) + differential correspondence + reference decoder on emitted bytes",
+  note="Lean kernel; axioms propext, Classical.choice, Quot.sound; utf8.ValidString modelled (compared every run); CONNECT/SUBSCRIBE round-trip theorems pending, those packets are checked by decoding implementation output"),
  "C15": dict(
   text="Lean 4 theorems over the model of encodeValue/decodeValue (FNV-1a over BitVec 32): exact round-trip for every packet and "
        "every 64-bit sequence number, documented layout, rejection of every value shorter than 12 bytes, and detection of every "
